@@ -61,7 +61,8 @@ def check_roundtrip(drv, rng, obj, X, stats, tag=""):
     r = drv.call({"op": "disc.reload", "state": {k: v for k, v in st1.items() if k != "lpv"}, "keystr": keystr_table(obj)})
     st2 = fitgen.state_wire(obj2)
     # hypothesis of the theorem `C06.reload_behaviour` (every order is `Dumpable`), evaluated by the model on this state
-    stats["dumpable" if r.get("dumpable") else "not_dumpable"] += 1
+    kd = "dumpable" if r.get("dumpable") else "not_dumpable"
+    stats[kd] = stats.get(kd, 0) + 1
     if "ok" not in r:
         fail("model predicts that the reload fails", kind="correspondence", model=r)
     else:
